@@ -46,7 +46,7 @@ package varmq
 
 // Worker invariant, per lifecycle state (C14): what "Running" must mean for the worker to be able to process jobs.
 //@ pred RI_worker(w *worker) := w != nil && PoolOK(w) && QM(w) && w.metrics != nil && w.waiters != nil && w.workerFunc != nil
-//@      && 0 <= w.status && w.status <= stopped && w.concurrency >= 1 && w.$disp >= 0 && w.$armed >= 0 && w.$listeners >= 0
+//@      && 0 <= w.status && w.status <= stopped && w.concurrency >= 1 && w.$disp >= 0 && w.$armed >= 0 && w.$listeners >= 0 && w.$reapers >= 0
 //@      && (w.status == initiated ==> w.eventLoopSignal != nil && $open(w.eventLoopSignal) && $cap(w.eventLoopSignal) >= 1 && w.errorChan != nil && $open(w.errorChan)
 //@                                     && w.$disp == 0 && w.$listeners == 0 && w.pool.List.len == 0 && w.curProcessing == 0)
 //@      && ((w.status == running || w.status == paused) ==> w.eventLoopSignal != nil && $open(w.eventLoopSignal) && $cap(w.eventLoopSignal) >= 1
@@ -54,7 +54,7 @@ package varmq
 //@      && (w.status == stopped ==> w.eventLoopSignal == nil && w.errorChan == nil && w.$disp == 0 && w.pool.List.len == 0 && w.$listeners == 0 && w.curProcessing == 0)
 //@      && ((w.ctx != nil) <==> (w.cancel != nil)) && ((w.ctx != nil) <==> (w.Configs.ctx != nil)) && (w.ctx != nil ==> $parentOf(w.ctx) == w.Configs.ctx)
 //@      && (w.eventLoopSignal == nil || w.eventLoopSignal != w.errorChan)
-//@      && (w.$armed > 0 ==> w.status == stopped)
+//@      && (w.$armed > 0 ==> w.status == stopped) && (w.ctx == nil ==> w.$armed == 0)
 
 // ---------------------------------------------------------------- small helpers
 //@ func worker.configs
@@ -286,14 +286,15 @@ package varmq
 //@   loop 1: invariant [noop-parked]    (w.status == paused || w.status == stopped) && old(w.curProcessing) == 0 ==> w.curProcessing == 0 && w.pool.List.len == old(w.pool.List.len)
 
 // ---------------------------------------------------------------- lifecycle (C14): every call from every invariant state
-// start: from Running it refuses; from Initiated it creates exactly one dispatcher, the reaper (iff idle expiry), the context listener
-// (iff a context), the first idle pool node, stores Running and raises the initial signal. It must not be called from Paused / Stopped.
+// start: from Running / Paused / Stopped it refuses and changes nothing; from Initiated it creates exactly one dispatcher, the reaper (iff
+// idle expiry), the context listener (iff a context), the first idle pool node, stores Running and raises the initial signal.
 //@ func worker.start
 //@   props C14 C02 C03 C18
-//@   requires RI_worker(w) && (w.status == initiated || w.status == running) && w.Configs.idleWorkerExpiryDuration >= 0 && len(w.tickers) < MaxInt
+//@   requires RI_worker(w) && w.Configs.idleWorkerExpiryDuration >= 0 && len(w.tickers) < MaxInt
 //@   modifies w.status, $alloc, $spawned, w.$disp, w.$reapers, w.$listeners, w.$nodes, w.tickers, w.tickers[**], key G:$tickersLive, $chan(w.eventLoopSignal),
 //@            linkedlist.Node.next, linkedlist.Node.prev, w.pool.List.len, w.pool.List.$at, w.pool.List.$pos, w.pool.List.$in
-//@   ensures [running]   old(w.status) == running ==> result == ErrRunningWorker && w.status == running && w.$disp == old(w.$disp) && w.pool.List.len == old(w.pool.List.len)
+//@   ensures [running]   old(w.status) == running ==> result == ErrRunningWorker && w.status == running && w.$disp == old(w.$disp) && w.$nodes == old(w.$nodes) && w.pool.List.len == old(w.pool.List.len)
+//@   ensures [parked]    (old(w.status) == paused || old(w.status) == stopped) ==> result == ErrNotRunningWorker && w.status == old(w.status) && w.$disp == old(w.$disp) && w.$nodes == old(w.$nodes) && w.pool.List.len == old(w.pool.List.len)
 //@   ensures [started]   old(w.status) == initiated ==> result == nil && w.status == running && w.$disp == 1 && w.pool.List.len == 1 && $len(w.eventLoopSignal) >= 1
 //@   ensures [resources] old(w.status) == initiated ==> w.$reapers == old(w.$reapers) + (w.Configs.idleWorkerExpiryDuration != 0 ? 1 : 0) && w.$nodes == old(w.$nodes) + 1
 //@   ensures [ri]        RI_worker(w)
@@ -340,7 +341,7 @@ package varmq
 //@   ensures [initiated] old(w.status) == initiated ==> result == ErrNotRunningWorker && w.status == initiated
 //@   ensures [stops]     (old(w.status) == running || old(w.status) == paused) ==> result == nil && w.status == stopped && w.curProcessing == 0
 //@                          && w.eventLoopSignal == nil && w.errorChan == nil && w.$disp == 0 && w.pool.List.len == 0 && len(w.tickers) == 0
-//@   ensures [reapers]   (old(w.status) == running || old(w.status) == paused) ==> w.$reapers == 0
+//@   ensures [reapers@C18]   (old(w.status) == running || old(w.status) == paused) ==> w.$reapers == 0
 //@   ensures [ri]        RI_worker(w)
 //@   ghost after call funcvalue when w.$listeners > 0: w.$armed := w.$armed + w.$listeners
 //@   ghost after call funcvalue: w.$listeners := 0
@@ -366,10 +367,11 @@ package varmq
 //@            $open(w.eventLoopSignal), $open(w.errorChan), w.$disp, key G:$poolputs, $usercalls, w.$listeners, w.$armed, $spawned, w.$reapers, key G:$tickersLive
 //@   ensures [running]  result == nil && w.status == running
 //@   ensures [ri]       RI_worker(w)
-//@   ensures [reapers]  w.$reapers <= 1
+//@   ensures [reapers@C18]  w.$reapers <= 1
 //@   ensures [one]      w.$disp == 1 && w.pool.List.len == 1 && $len(w.eventLoopSignal) >= 1
 //@   ghost after call funcvalue when w.$listeners > 0: w.$armed := w.$armed + w.$listeners
 //@   ghost after call funcvalue: w.$listeners := 0
+//@   ghost after store ctx: w.$armed := 0
 
 // TunePool: only a running worker can be tuned; the limit becomes withSafeConcurrency(n); growing raises the signal; shrinking (without
 // idle expiry) retires at most old-new idle workers and never goes below the idle minimum that was available.
@@ -387,6 +389,7 @@ package varmq
 //@   ensures [ri]         RI_worker(w)
 //@   loop 1: invariant [pool] PoolOK(w) && shrinkPoolSize >= 0 && shrinkPoolSize <= oldConcurrency - safeConcurrency && w.pool.List.len <= old(w.pool.List.len)
 //@                              && old(w.pool.List.len) - w.pool.List.len == (oldConcurrency - safeConcurrency) - shrinkPoolSize
+//@   loop 1: invariant [min]  w.pool.List.len >= min(old(w.pool.List.len), minIdleWorkers) && minIdleWorkers == max((w.concurrency * w.Configs.minIdleWorkerRatio) / 100, 1) && w.concurrency == safeConcurrency
 
 // ---------------------------------------------------------------- construction
 // A new worker is Initiated: both channels exist and are open (the signal channel is buffered, so a wake-up cannot be lost), no
@@ -424,14 +427,16 @@ package varmq
 //@   ghost at return: result.$armed := 0
 //@   ghost at return: result.$reapers := 0
 
-// The context listener: when the (captured) context is done it calls Stop once.
+// The context listener: when the (captured) context is done it calls Stop once -- unless the worker's context has been replaced meanwhile
+// (by Restart): a listener of a replaced context does nothing. This is what allows Restart to forget the listeners it armed ($armed := 0).
 //@ func worker.goListenToContext$1
 //@   props C14
 //@   requires c != nil && $deref(w) != nil && RI_worker($deref(w)) && (forall q ref {$lenOf(q)} :: $lenOf(q) >= 0) && (forall t ref {$tickerStopped[t]} :: $tickerStopped[t] >= 0)
 //@   modifies $deref(w).status, $deref(w).curProcessing, $lenOf, $alloc, linkedlist.Node.next, linkedlist.Node.prev, $deref(w).pool.List.len, $deref(w).pool.List.$at, $deref(w).pool.List.$pos, $deref(w).pool.List.$in,
 //@            key CH:sent<, key CH:rcvd<, key CHV:<, key CH:open<, $deref(w).$nodes, $deref(w).$dispatched, $deref(w).$freed, $deref(w).tickers, $tickerStopped, $deref(w).eventLoopSignal, $deref(w).errorChan,
 //@            $deref(w).$disp, key G:$poolputs, $usercalls, $deref(w).$listeners, $deref(w).$armed
-//@   ensures [stopped] old($deref(w).status) == running || old($deref(w).status) == paused ==> $deref(w).status == stopped
+//@   ensures [current] $deref(w).ctx == c && (old($deref(w).status) == running || old($deref(w).status) == paused) ==> $deref(w).status == stopped
+//@   ensures [stale]   $deref(w).ctx != c ==> $deref(w).status == old($deref(w).status) && $deref(w).eventLoopSignal == old($deref(w).eventLoopSignal) && $deref(w).$disp == old($deref(w).$disp)
 //@   ghost after call invoke.Done: assume result != $deref(w).eventLoopSignal
 
 // ---------------------------------------------------------------- binders (worker_binder.go)
@@ -606,7 +611,6 @@ package varmq
 //@   ensures [otherwise] old(wb.worker.status) != initiated ==> wb.worker.status == old(wb.worker.status) && wb.worker.$disp == old(wb.worker.$disp) && wb.worker.$nodes == old(wb.worker.$nodes)
 //@   ensures [subscribed] $subs(dpq) == old($subs(dpq)) + 1
 //@   ensures [ri]        RI_worker(wb.worker)
-
 
 //@ func newQueues
 //@   props C14
